@@ -97,6 +97,11 @@ func cmdCheck(w *World, args []string, tier string, verbose bool) int {
 				}
 			}
 		}
+		for _, ac := range ct.AtCall {
+			if hasProp(ac.Expr.Props, prop) {
+				relevant = true
+			}
+		}
 		if !relevant {
 			continue
 		}
